@@ -61,6 +61,9 @@ type Run struct {
 	lines   []string
 	start   time.Time
 	KeepLog bool
+	// Data carries engine state from Exec (inside the bubble) to Teardown (outside it),
+	// e.g. a recorded history to be checked with real-time bounded tools.
+	Data interface{}
 }
 
 const maxKeptLines = 4000
